@@ -92,11 +92,12 @@ Definition bit (o : option Z) : string :=
    exist, and a variable that is not part of the problem counts as 0) *)
 Definition debug_text (s : session) : string :=
   let M := s_inst s in
-  (if s_has_vars s then
+  (* all(hasattr(pair, 'lp_var') ...) is vacuously true when the instance has no pair at all *)
+  (if s_has_vars s || (match all_pairs M with [] => true | _ => false end) then
      "Main lp decision variables:" +++ NL +++
      concat_str (map (fun row => concat_str (map (fun q => bit (val_of (s_vals s) (X (st q) (pr q)))) row) +++ NL) (pairs M))
      +++ NL +++
-     (if o_pc (s_opts s) then
+     (if s_has_vars s && o_pc (s_opts s) then      (* hasattr(self, 'project_closures'): only after an LP solve with -pc *)
         "Project closure variables:" +++ NL +++
         concat_str (map (fun j => bit (val_of (s_vals s) (Closure j))) (proj_ids M)) +++ NL
       else "")
